@@ -34,8 +34,10 @@ class ExactAlgorithmCplex(ExactAlgorithmBase, PairwiseBasedAlgorithm):
     More information can be found at: https://www.ibm.com/products/ilog-cplex-optimization-studio
 
     :ivar _PRECISION_THRESHOLD: float representing the precision threshold used for floating point comparison
+        (rounding noise only: with a larger value, ties that are strictly cheaper than both orders would be forbidden
+        by the "no ties" optimisation and the consensus returned would not be optimal)
     """
-    _PRECISION_THRESHOLD = 0.001
+    _PRECISION_THRESHOLD = 1e-9
 
     def __init__(self, optimize=True):
         """
